@@ -151,6 +151,16 @@ def run_case(case, part):
         part.violation(case, "returned ids do not label each merged row with the survey it came from",
                        expected=owner, observed=[str(x) for x in ids])
         return
+    # ... and the label IS the survey's own name: the dict key it was given under / its position in the list
+    if isinstance(data, dict):
+        key_of = {k: next(kk for kk, v in data.items() if v is srcs[k]) for k in range(S)}
+    else:
+        key_of = dict(listpos)
+    wrong = [i for i in range(n) if str(ids[i]) != str(key_of[owner[i]])]
+    if wrong:
+        part.violation(case, "merged rows are labelled with another survey's name (dict key / list position) than the one they came from",
+                       expected=[str(key_of[o]) for o in owner], observed=[str(x) for x in ids])
+        return
     # 4. likelihood = that of the correctly labelled data
     if case.get("lnl", True):
         prior = _prior(S - 1)
